@@ -12,10 +12,12 @@ import (
 	"math/rand"
 	"os"
 	"os/exec"
+	"runtime"
 	"runtime/debug"
 	"sort"
 	"strings"
 	"sync"
+	"sync/atomic"
 	"time"
 )
 
@@ -279,4 +281,61 @@ func (b *panicBox) get() string {
 	b.mu.Lock()
 	defer b.mu.Unlock()
 	return b.msg
+}
+
+var hangCount int32
+
+// guarded runs one case with panic capture and a watchdog: a case that does not finish (a library call,
+// or the CloseNow of the clean-up, hangs) is reported with the case as its replay instead of stalling
+// the whole run. After three hanging cases the remaining ones are skipped.
+func guarded(limit time.Duration, f func() (string, string)) (string, string) {
+	if atomic.LoadInt32(&hangCount) >= 3 {
+		return "", ""
+	}
+	type r struct{ sh, w string }
+	ch := make(chan r, 1)
+	go func() {
+		var res r
+		defer func() {
+			if p := recover(); p != nil {
+				res = r{"panic", fmt.Sprint(p)}
+			}
+			ch <- res
+		}()
+		res.sh, res.w = f()
+	}()
+	select {
+	case x := <-ch:
+		return x.sh, x.w
+	case <-time.After(limit):
+		atomic.AddInt32(&hangCount, 1)
+		return "case-hangs", fmt.Sprintf("the case did not finish within %v (a library call or the final CloseNow hangs); library goroutines: %s", limit, libStacks(1200))
+	}
+}
+
+// libStacks: the goroutines currently inside the library, abbreviated.
+func libStacks(max int) string {
+	buf := make([]byte, 1<<20)
+	buf = buf[:runtime.Stack(buf, true)]
+	var out []string
+	for _, g := range strings.Split(string(buf), "\n\n") {
+		if !strings.Contains(g, "nhooyr.io/websocket.") {
+			continue
+		}
+		var fr []string
+		for _, l := range strings.Split(g, "\n") {
+			if strings.HasPrefix(l, "nhooyr.io/websocket.") {
+				fr = append(fr, strings.TrimPrefix(strings.SplitN(l, "(0x", 2)[0], "nhooyr.io/websocket."))
+			}
+			if len(fr) == 4 {
+				break
+			}
+		}
+		out = append(out, strings.Join(fr, "<"))
+	}
+	res := strings.Join(out, " | ")
+	if len(res) > max {
+		res = res[:max]
+	}
+	return res
 }
